@@ -146,13 +146,23 @@ pub fn ast_val(ast: &SmartCalcAstType) -> Val {
 /// result) and project what the caller sees.
 pub fn observe_call(f: impl FnOnce() -> (bool, Vec<LineObs>)) -> CallObs {
     LAST_PANIC.with(|p| *p.borrow_mut() = None);
-    match catch_unwind(AssertUnwindSafe(f)) {
+    let r = guarded(|| catch_unwind(AssertUnwindSafe(f)));
+    match r {
         Ok((status, lines)) => CallObs::Returned { status, lines },
         Err(_) => {
             let info = LAST_PANIC.with(|p| p.borrow_mut().take());
             CallObs::Unwound(info.unwrap_or(PanicInfo { msg: "<no hook info>".into(), loc: "?".into(), func: "?".into() }))
         }
     }
+}
+
+/// run `f` with panics attributed to the code under test (silent, recorded);
+/// a panic outside such a region is a harness bug and is printed
+pub fn guarded<R>(f: impl FnOnce() -> R) -> R {
+    let prev = IN_GUARD.with(|g| g.replace(true));
+    let r = f();
+    IN_GUARD.with(|g| g.set(prev));
+    r
 }
 
 pub fn take_last_panic() -> Option<PanicInfo> {
@@ -184,6 +194,7 @@ macro_rules! project_result {
 
 thread_local! {
     static LAST_PANIC: RefCell<Option<PanicInfo>> = const { RefCell::new(None) };
+    static IN_GUARD: std::cell::Cell<bool> = const { std::cell::Cell::new(false) };
 }
 
 fn smartcalc_frame_from_backtrace() -> String {
@@ -227,6 +238,10 @@ pub fn install_panic_hook() {
             };
             format!("{}:{}", short, l.line())
         }).unwrap_or_else(|| "?".into());
+        if !IN_GUARD.with(|g| g.get()) {
+            eprintln!("harness panic (outside the code under test): {} at {}", msg, loc);
+            eprintln!("{}", std::backtrace::Backtrace::force_capture());
+        }
         let mut pi = PanicInfo { msg, loc: loc.clone(), func: String::new() };
         pi.func = smartcalc_frame_from_backtrace();
         LAST_PANIC.with(|p| *p.borrow_mut() = Some(pi));
